@@ -219,6 +219,7 @@ pub trait Surface {
     //@+ ensures
     //@+     r.g_inner() == self,
     //@+     rep(r.g_shape(), transposed(self.win()), self.spec_data().len()),
+    //@subst? N5 `Shape::from(..)` routed to the re-homed `impl From<Size> for Shape` /Shape::from\(/Shape::from_size(/
 
     //@ fn trait Surface :: to_owned_surf ret=r
     //@+ requires
